@@ -19,6 +19,7 @@ fn run_labels(case: &TrainCase, run: &TrainRun, cx: &mut Ctx) {
         _ => "slts_link_by_link",
     });
     cx.label_if(case.train.dummy, "dummy_consist");
+    cx.label_if(case.train.hybrids > 0, "consist_with_hybrid_locomotive");
     cx.label_if(case.init_offset_extra > 0.0, "starts_further_along_the_path");
     cx.label_if(case.and_parts, "built_through_and_parts_constructor");
     cx.label_if(case.train.length_override.is_some(), "length_override");
@@ -153,6 +154,10 @@ impl C11 {
         c.simulation_days = [None, Some(1), Some(7), Some(365)][g.idx(4)];
         c.scenario_year = [None, Some(2030), Some(2050), Some(7)][g.idx(4)];
         c.and_parts = g.bool(0.35);
+        // 25 %: one or two default hybrid locomotives join the generated units
+        if !c.train.dummy && g.bool(0.25) {
+            c.train.hybrids = g.usize(1, 2);
+        }
         c
     }
     fn check(case: &TrainCase, cx: &mut Ctx) {
@@ -265,6 +270,16 @@ impl C14 {
             let de = s.energy_whl_out.value - p.energy_whl_out.value;
             if !close(de, got * dt, s.energy_whl_out.value.abs() + (got * dt).abs() + 1.0, 1e-9) {
                 cx.fail("C14|energy|energy_whl_out-step!=pwr*trace-dt", format!("saved step {k}: energy advanced {de} vs pwr {got} * dt {dt}"));
+            }
+            // its positive and negative parts accumulate the same (clipped) power
+            let dpos = s.energy_whl_out_pos.value - p.energy_whl_out_pos.value;
+            let dneg = s.energy_whl_out_neg.value - p.energy_whl_out_neg.value;
+            let escale = s.energy_whl_out_pos.value.abs() + s.energy_whl_out_neg.value.abs() + (got * dt).abs() + 1.0;
+            if !close(dpos, got.max(0.0) * dt, escale, 1e-9) {
+                cx.fail("C14|energy|energy_whl_out_pos-step!=max(pwr,0)*trace-dt", format!("saved step {k}: positive wheel energy advanced {dpos} vs max({got}, 0) * dt {dt}"));
+            }
+            if !close(dneg, (-got).max(0.0) * dt, escale, 1e-9) {
+                cx.fail("C14|energy|energy_whl_out_neg-step!=max(-pwr,0)*trace-dt", format!("saved step {k}: negative wheel energy advanced {dneg} vs max(-{got}, 0) * dt {dt} (unclipped demand {raw})"));
             }
         }
         cx.label_if(case.init_speed_zero && case.trace[0].1 > 0.0, "initial_state_at_rest_but_trace_starts_moving");
